@@ -67,18 +67,24 @@ class Obligation:
         self.inputs = inputs or {}
         self.note = note
 
+    def byte_range_facts(self):
+        # inputs of type bytes really are bytes: used to obtain replayable models (and to discard
+        # counter-models that only exist with out-of-range "bytes")
+        i = z3.Int("i!rng")
+        out = []
+        for n, t in self.inputs.items():
+            if z3.is_seq(t) and not z3.is_string(t) and t.sort() == BytesS:
+                out.append(z3.ForAll([i], z3.Implies(z3.And(0 <= i, i < z3.Length(t)), z3.And(t[i] >= 0, t[i] < 256))))
+        return out
+
     def smt2(self, byte_ranges=False):
         s = z3.Solver()
         for c in self.pc:
             s.add(c)
         s.add(z3.Not(self.goal))
         if byte_ranges:
-            # inputs of type bytes really are bytes: used to obtain replayable models (and to discard
-            # counter-models that only exist with out-of-range "bytes")
-            i = z3.Int("i!rng")
-            for n, t in self.inputs.items():
-                if z3.is_seq(t) and not z3.is_string(t) and t.sort() == BytesS:
-                    s.add(z3.ForAll([i], z3.Implies(z3.And(0 <= i, i < z3.Length(t)), z3.And(t[i] >= 0, t[i] < 256))))
+            for f in self.byte_range_facts():
+                s.add(f)
         return s.to_smt2()
 
 
@@ -631,6 +637,9 @@ class FnExec:
             st2 = st1.clone()
             for tgt in node.targets:
                 self.assign(tgt, v, st2)
+                if isinstance(tgt, ast.Name) and tgt.id in self.c.ghost_at_assign:
+                    for g, e in self.c.ghost_at_assign[tgt.id].items():
+                        st2.ghost[g] = self.ev_spec(e, st2)
             yield st2, FALL
 
     def s_AnnAssign(self, node, st):
